@@ -54,6 +54,7 @@ class Kernel:
         self.objs = None
         self.by_id = {}
         self.by_name = {}
+        self._loop_ids = None
 
     # ---- identification
     @property
@@ -112,6 +113,32 @@ class Kernel:
         if isinstance(v, Pair) and n == 2:
             return [v.first, v.second]
         raise Gap("structured binding of %r" % (v,))
+
+    LOOP_KINDS = ("ForStmt", "WhileStmt", "DoStmt", "CXXForRangeStmt")
+
+    def loop_ordinal_of(self, node, ctx):
+        """static ordinal (source order) of a loop statement inside the kernel function; loops of
+        helpers executed in place are keyed '<helper>:<ordinal within the helper>'"""
+        nid = node.get("id")
+        if self._loop_ids is None:
+            self._loop_ids = {}
+            k = 0
+            for n in extract.walk(self.fn):
+                if n.get("kind") in self.LOOP_KINDS:
+                    self._loop_ids[n["id"]] = k
+                    k += 1
+        if nid in self._loop_ids:
+            return self._loop_ids[nid]
+        # a loop in an inlined helper: find the enclosing function on the frame stack
+        for fr in reversed(ctx.frames):
+            fn = fr.fn
+            k = 0
+            for n in extract.walk(fn):
+                if n.get("kind") in self.LOOP_KINDS:
+                    if n.get("id") == nid:
+                        return "%s:%d" % (fn.get("name"), k)
+                    k += 1
+        raise Gap("loop at line %s not found in any active function" % extract.line_of(node))
 
     def loop_spec(self, ordinal, node):
         return self.loops.get(ordinal)
